@@ -148,3 +148,50 @@ func buildC10(c *CheckCtx) {
 	c.gramPairs(runs)
 	c.Explain = "Covers: (a) every production with identical left- and right-hand side in both grammars builds the same result (kinds, slots, values, position builder and its arguments) on every path; (b) both grammars satisfy the same conservation, position, leaf and linearity contracts, so for any program on which both derive the same structure, tokens, free-floating content and positions coincide. Not decided: that the two LALR tables derive the same structure on the shared syntax."
 }
+
+func init() {
+	propBuilders["C01"] = buildC01
+	propBuilders["C06"] = buildC06
+	propBuilders["C04"] = buildC04
+}
+
+func (c *CheckCtx) boundN() string {
+	if c.Tier == "thorough" {
+		return "3"
+	}
+	return "2"
+}
+
+func buildC01(c *CheckCtx) {
+	c.Level = "other"
+	c.Technique = "no-panic / termination / frame contracts: WP over go/ssa for the scanner helpers, pools, position builder, parser wrappers; shape obligations for every grammar action; buffer frame by ownership dataflow; bounded stand-in for the scanner machine as a whole and the LR driver"
+	c.addFunctionUnits(func(con *Contract) bool { return hasProp(con, "C01") })
+	c.addGram(gramWant{Shape: true})
+	c.addFrames("C01")
+	c.runBoundedHarness("pkg/parser", "c01_bounded_test.go", "TestVCBoundedC01", []string{"VC_BOUND=" + c.boundN()},
+		"real parser.Parse on prefix·w for 17 mode-setting prefixes and every w over a 27-byte alphabet with |w| <= "+c.boundN()+", 3 version classes, with and without callback, 400 ms watchdog", "panic", "hang", "buffer")
+	c.Explain = "Proved per run (for all inputs): index/slice/nil/type-assertion safety, loop variants and frames of the scanner's helper functions (look-ahead predicates, call/ret/growCallStack, unget, token and position pools, NewLines), of the position builder, of the parser wrappers (NewLexer, NewParser, Parser.Lex/Error, parser.Parse) - each against its contract, with the helper preconditions as obligations at their verified call sites; for all 1014 grammar actions: every type assertion succeeds, no nil dereference, the optional callback is never called when nil, no stale $$ (under the inferred non-terminal contracts); the input buffer and the version are never written (frame over Parse's whole call tree). NOT proved: the generated scanner machine Lex as a whole (its calls satisfy the helper preconditions; progress) and the LR driver loop - for these a bounded stand-in runs the real parser exhaustively over a stated family of short inputs; it is labelled bounded and not counted."
+	c.assume("Lexer.Lex: result non-nil and scanner state well-formed on return (assumed contract; the machine's body is not verified yet)")
+	c.assume("goyacc LR driver: calls Lex before Error, keeps its stack discipline (trusted generated code)")
+}
+
+func buildC06(c *CheckCtx) {
+	c.Level = "other"
+	c.Technique = "contracts on the error paths (WP over go/ssa): nil-safe optional callback at every error site, message and position of lexer and parser errors; callback non-interference by frame; bounded stand-in on the real parser for in-range positions, lines, order and callback independence"
+	c.addFunctionUnits(func(con *Contract) bool { return hasProp(con, "C06") })
+	c.addGram(gramWant{Shape: true})
+	c.addFrames("C06")
+	c.runBoundedHarness("pkg/parser", "c01_bounded_test.go", "TestVCBoundedC01", []string{"VC_BOUND=" + c.boundN()},
+		"real parser.Parse on prefix·w for 17 mode-setting prefixes and every w over a 27-byte alphabet with |w| <= "+c.boundN()+", 3 version classes, with and without callback", "callback-changes-tree", "error-empty-message", "error-position-range", "error-line", "error-order")
+	c.Explain = "Proved per run: every site that reports an error (Lexer.error, Parser.Error in both parser packages, php5's reportError and the grammar actions that call it) tests the optional callback for nil first and calls it exactly once otherwise; a lexer error carries the given non-empty message, the offsets ts..te of the scanner window and the lines NewLines.GetLine gives for them (GetLine verified against its sorted-array specification); a parser error forwards the driver's message with the position of the look-ahead token; parser.Parse hands the callback unchanged to lexer and parser; the root is stored only by rule 1. NOT decided: that every invalid input is reported and that a silent parse is complete (correctness of the LR driver and its tables); order of errors and callback-independence of the tree are only covered by the bounded stand-in."
+	c.assume("the error callback is passive caller code")
+}
+
+func buildC04(c *CheckCtx) {
+	c.Level = "other"
+	c.Technique = "contracts (WP over go/ssa) on the functions that give tokens their text, offsets and lines; leaf-value obligations for every grammar action; pools"
+	c.addFunctionUnits(func(con *Contract) bool { return hasProp(con, "C04") })
+	c.addGram(gramWant{Shape: true, Leaf: true})
+	c.Explain = "Proved per run: setTokenPosition gives a token the offsets ts..te and the lines GetLine yields for ts and te-1; addFreeFloatingToken appends exactly one fresh token with the given id, Value = data[ps:pe] and that position; NewLines.Append keeps the line-start table strictly increasing and GetLine returns the 1-based line of an offset against it; ungetCnt/ungetStr shrink p and te together and never below ts; pools hand out distinct cells (C18); for every grammar action a leaf node's Value is the Value of a token stored in that node (concatenations in token order). NOT proved yet: the scanner machine's own obligations (Value == data[ts:te] at exit, tiling without gaps, the new_line action recording every line start, classification of trivia) - they need the E-SCAN pass."
+	c.assume("the generated scanner machine sets tkn.Value = data[ts:te] and calls the helpers with ps == ts, pe == te (not verified yet)")
+}
